@@ -1,16 +1,27 @@
 import numpy as np
 
+def _cast_source(array):
+    # np.can_cast no longer accepts Python scalars (or nested lists) in
+    # NumPy >= 2, so probe the dtype numpy would give the value instead
+    # of the value itself.
+    try:
+        return array.dtype
+    except AttributeError:
+        return np.asarray(array).dtype
+
 def inexact_type(array):
     try:
-        return (not np.can_cast(array, int) and
-                (np.can_cast(array, np.dtype("complex")) or
-                 np.can_cast(array, float)))
+        source = _cast_source(array)
+        return (not np.can_cast(source, int) and
+                (np.can_cast(source, np.dtype("complex")) or
+                 np.can_cast(source, float)))
     except TypeError:
         return False
 
 def is_linalg_type(array):
     try:
-        return (np.can_cast(array, np.dtype("complex")) or
-                np.can_cast(array, float))
+        source = _cast_source(array)
+        return (np.can_cast(source, np.dtype("complex")) or
+                np.can_cast(source, float))
     except TypeError:
         return False
